@@ -29,6 +29,7 @@
 #include <kernel/solver/richardson.hpp>
 #include <kernel/solver/jacobi_precond.hpp>
 #include <kernel/solver/multigrid.hpp>
+#include <algorithm>
 #include <cmath>
 #include <deque>
 
@@ -180,6 +181,33 @@ namespace
         rates.push_back(r);
         mg->done();
       }
+      // ---- operators change, hierarchy re-initialised: MG(2A) d = MG(A) d / 2 (all sub-solvers are homogeneous of degree -1
+      // in the matrix, the adaptive step lengths of degree 0); then values restored and a full symbolic+numeric re-init
+      {
+        auto mg = Solver::new_multigrid(hier, cfg.cycle == 0 ? Solver::MultiGridCycle::V : cfg.cycle == 1 ? Solver::MultiGridCycle::F : Solver::MultiGridCycle::W);
+        mg->set_adapt_cgc(cfg.adapt == 0 ? Solver::MultiGridAdaptCGC::Fixed : cfg.adapt == 1 ? Solver::MultiGridAdaptCGC::MinEnergy : Solver::MultiGridAdaptCGC::MinDefect);
+        mg->init();
+        Level& T = *levels.front();
+        const Index n = T.matrix.rows();
+        VectorType d(n), x1(n), x2(n), x3(n);
+        for(Index i = 0; i < n; ++i) d(i, double(int((i * 31u + 7u) % 19u) - 9) / 8.0);
+        T.filter.filter_def(d);
+        mg->apply(x1, d);
+        for(auto& pl : levels) pl->matrix.scale(pl->matrix, 2.0);
+        mg->done_numeric(); hier->done_numeric();
+        hier->init_numeric(); mg->init_numeric();
+        mg->apply(x2, d);
+        for(auto& pl : levels) pl->matrix.scale(pl->matrix, 0.5);
+        mg->done(); hier->done();
+        hier->init(); mg->init();
+        mg->apply(x3, d);
+        n_apply += 3;
+        double nx = 0.0, e2 = 0.0, e3 = 0.0;
+        for(Index i = 0; i < n; ++i) { nx = std::max(nx, std::fabs(x1(i))); e2 = std::max(e2, std::fabs(2.0 * x2(i) - x1(i))); e3 = std::max(e3, std::fabs(x3(i) - x1(i))); }
+        Rate r; r.top = -1; r.crs = 2; r.rho = (nx > 0.0 && std::isfinite(e2)) ? e2 / nx : 1e300; rates.push_back(r);
+        r.crs = 3; r.rho = (nx > 0.0 && std::isfinite(e3)) ? e3 / nx : 1e300; rates.push_back(r);
+        mg->done();
+      }
       hier->done();
       return rates;
     }
@@ -219,7 +247,7 @@ int main(int argc, char** argv)
   spec.assumptions = {
     "rho_bar per family is a fixed constant chosen from theory/measurement with margin (it does not depend on the number of levels); a slightly slower smoother cannot be flagged, only loss of level independence or divergence",
     "power iteration from one deterministic start vector; for the non-normal F-cycle operator the value is an estimate of the asymptotic rate",
-    "with adaptive CGC the iteration is nonlinear; the measured value is the observed asymptotic reduction"};
+    "with adaptive CGC the iteration is nonlinear; the measured value is the observed asymptotic reduction", "re-initialisation history per (family, steps, CGC mode, cycle): apply; scale all level matrices by 2; done/init numeric; apply (must be half); restore; full done/init; apply (must be the first result)"};
   spec.deadline_quick_s = 540;
 
   return verif::run(spec, argc, argv, [&](verif::Ctx& c) {
@@ -250,6 +278,14 @@ int main(int argc, char** argv)
       std::map<std::pair<int, int>, double> rho;
       double worst = 0.0;
       std::string table;
+      // the two re-initialisation results (top = -1) are checked here and removed from the rate table
+      for(auto& r : rates) if(r.top < 0)
+      {
+        if(r.crs == 2) c.check(r.rho <= 1e-11, "matrices scaled by 2 + numeric re-init: MG(2A)d != MG(A)d/2; " + key, [&]{ char m[120]; snprintf(m, sizeof m, "relative difference %.3e", r.rho); return std::string(m); });
+        if(r.crs == 3) c.check(r.rho <= 1e-11, "values restored + full re-init: result differs from the first application; " + key, [&]{ char m[120]; snprintf(m, sizeof m, "relative difference %.3e", r.rho); return std::string(m); });
+        c.count(r.rho == 0.0 ? "reinit_results_bitwise" : "reinit_results_within_1e-11");
+      }
+      rates.erase(std::remove_if(rates.begin(), rates.end(), [](const Rate& r){ return r.top < 0; }), rates.end());
       for(auto& r : rates)
       {
         rho[std::make_pair(r.top, r.crs)] = r.rho;
